@@ -1097,9 +1097,10 @@ func selftest(which string, seed uint64, tier string) int {
 		}
 	}
 	fmt.Printf("selftest-determinism: %d (world,seed) points x %d repeats, %d diverged\n", len(results), reps, div)
-	os.MkdirAll(filepath.Join(verifDir, "evidence"), 0o755)
+	// (not under evidence/: that directory holds one schema-conforming file per property)
+	os.MkdirAll(filepath.Join(verifDir, "selftest"), 0o755)
 	b, _ := json.MarshalIndent(map[string]any{"points": len(results), "repeats": reps, "diverged": div, "worlds": worldsList, "at": time.Now().UTC().Format(time.RFC3339)}, "", " ")
-	os.WriteFile(filepath.Join(verifDir, "evidence", "selftest-determinism.json"), b, 0o644)
+	os.WriteFile(filepath.Join(verifDir, "selftest", "determinism.json"), b, 0o644)
 	if div > 0 {
 		return 2
 	}
